@@ -956,7 +956,7 @@ def run_check(pid, tier, seed, replay=None):
         if res.get("locale_diff"):
             cidl, la, lb = res["locale_diff"]
             fails.append((fam, sd, {"case": cidl, "code": 0, "cfg": "-", "op": -1,
-                                    "why": "the library's behaviour depends on the host program's locale: in the classic locale [%s], under a global locale with digit grouping / after setlocale to a UTF-8 locale [%s]" % (la[:120], lb[:120])},
+                                    "why": "the library's behaviour depends on the host program's environment: in main() with the classic locale [%s]; under a global locale with digit grouping, after setlocale to a UTF-8 locale, or run from a namespace-scope constructor [%s]" % (la[:120], lb[:120])},
                           cases.get(cidl)))
         if res["impl_rc"] != 0:
             crashes.append((fam, sd, res["impl_rc"], res["impl_err"], lines, res))
